@@ -29,6 +29,12 @@ chk("C13", "venum",
     "Trusted: the 150-line WHATWG subset (ASCII hosts; IDNA out of scope); bare '?' and fragments are observed, not judged.",
     "DESIGN.md 3 C13")
 
+chk("C17", "venum",
+    "exhaustive enumeration of a destination grammar x every driven redirect site on the real handlers, Location (as put on the wire by a real http.Server) resolved with an independent WHATWG-subset resolver",
+    "Every destination of the grammar (all prefixes of length <=3 over {/,\\,TAB,LF,CR,space,.,%2f,%5c,@,:,?,#,;}, every C0 control/DEL at positions 0-2, scheme-like prefixes; 4 bodies; ~12.7k strings) is supplied, as form field and as query parameter, to every handler that redirects to a client-supplied destination (login POST/GET, TOTP, VIP OTP, bootstrap OTP, federated callback), each driven on its real success path with fakes for VIP and the OAuth2 provider; the emitted Location must resolve to keymasterd's origin. Redirect sites are extracted from the current source; undriven non-constant sites are listed in the evidence.",
+    "Trusted: WHATWG subset; recorder output is passed through net/http's documented header sanitisation and that is conformance-checked against a real http.Server over loopback for ~1% of points and every violation. Okta OTP site is not driven (listed as not driven).",
+    "DESIGN.md 3 C17")
+
 NOT_YET = {
 }
 
